@@ -199,7 +199,7 @@ class C02(Check):
                 ans = run.add(rule, methods, None, ow)
                 ms = [m.upper() for m in ([methods] if isinstance(methods, str) else methods)]
                 try:
-                    pat, params, filters, _, _ = Route.parse_rule(rule)
+                    pat, filters, params = G.rule_spec(rule)
                 except Exception:
                     continue
                 t = table.get(pat, {})
